@@ -419,7 +419,7 @@ def firesSpec (E : Expr) (root : Id) : Heap → Mutation → Bool :=
 `viewGetter` serialises everything the expression selects (the most
 discriminating getter satisfying the user contract); `sumGetter` is a lossy one
 (distinct views may give equal values) that can return the `Undefined`
-sentinel `"U"`. -/
+sentinel `"U"`; `falsyGetter` returns `None`, `0`, `''`, `[]` for most states. -/
 
 def showContent : Content → String
   | .int v => toString v
@@ -443,6 +443,15 @@ def sumLeaf : Content → Int
 def sumGetter (E : Expr) (root : Id) (undef : Bool) (h : Heap) : String :=
   let t := (foldExpr sumLeaf (fun _ l => l.foldl (· + ·) 0) h E root).foldl (· + ·) 0
   if undef && t % 5 == 3 then "U" else toString t
+
+/-- A getter whose legitimate results include `None` and the other falsy
+values (`"N"` = `None`, `"0"` = `0`, `"''"` = `''`, `"[]"` = `[]`): only the
+`Undefined` sentinel may be taken for "nothing cached" (has_traits.py:903-906
+`result is Undefined`). -/
+def falsyGetter (E : Expr) (root : Id) (h : Heap) : String :=
+  let t := (foldExpr sumLeaf (fun _ l => l.foldl (· + ·) 0) h E root).foldl (· + ·) 0
+  if t % 5 == 0 then "N" else if t % 5 == 1 then "0" else if t % 5 == 2 then "''"
+  else if t % 5 == 3 then "[]" else toString t
 
 /-! ## The source text this model was transcribed from
 
